@@ -23,7 +23,7 @@
   Not proved here: that the non-NaN cells are the storage values of that key (checked by the correspondence and the
   direct oracle `table-value` only).
 -/
-import SH.Lemmas.TableCells
+import SH.Lemmas.TableOrder
 
 namespace SH.C25
 open SH.Table
@@ -430,6 +430,27 @@ example : (handleGetTable .keeps .fixed reqDesc [⟨10, 11⟩, ⟨11, 12⟩] sto
     (fun r => (r.1.map (fun o => o.key.time), r.2)) = some ([11], true) := by decide
 /-- non-vacuity of `handleGetTable_reverses_visits_ascending` -/
 example : reqDesc.win.fromEnd = true ∧ ∀ s ∈ storeDesc, s.length = [(⟨10, 11⟩ : Lod), ⟨11, 12⟩].length := by decide
+
+/-! ## the page is the leading part of the window in time -/
+
+/-- **limit respected, in the requested direction.** For every request, LOD split and storage output that is ordered in
+    time (`TimeOrdered`: answers in ascending LOD order as handleGetTable passes them, ascending time groups): the rows
+    on the page of a function precede, in the requested time direction, every window row of that function that did not
+    fit the limit — ascending: no later than; fromEnd: no earlier than. (Order among the rows of one second is the
+    storage's: see fixes/C25-order-by-desc-every-key.) -/
+theorem page_leads_in_time (q : Req) (answers : List (Lod × Option (List (List Row)))) (h : TimeOrdered answers) :
+    ∀ a ∈ pageRows q (dir q.win.fromEnd answers),
+      ∀ b ∈ (candRows q (dir q.win.fromEnd answers)).drop q.limit.toNat, timeDir q.win.fromEnd a b := by
+  have hs := candRows_time_sorted q answers h
+  rw [← List.take_append_drop q.limit.toNat (candRows q (dir q.win.fromEnd answers))] at hs
+  exact (List.pairwise_append.1 hs).2.2
+
+/-- non-vacuity: the two-LOD descending request; its page is the newest row and leads the older one -/
+example : TimeOrdered ([(⟨10, 11⟩ : Lod), ⟨11, 12⟩].zip (storeDesc.headD [])) := by
+  unfold TimeOrdered; decide
+example : (pageRows reqDesc (dir true ([(⟨10, 11⟩ : Lod), ⟨11, 12⟩].zip (storeDesc.headD [])))).map (·.key.time) = [11] ∧
+    ((candRows reqDesc (dir true ([(⟨10, 11⟩ : Lod), ⟨11, 12⟩].zip (storeDesc.headD [])))).drop 1).map (·.key.time) = [10] := by
+  decide
 
 /-! ## old code (before 8d8821bd): the shared backing array of rowRepr.Tags -/
 
